@@ -272,5 +272,61 @@ pub fn run(ctx: &Ctx) {
             mk(&mut out, cap, ths, &format!("threads{nth}"));
         }
     }
+    // ---------- stress: many threads around the eviction frontier; the capacity bound and the
+    // "a hit returns a value that was stored for that key" clause are checked on the real cache ----------
+    if ctx.replay_cases().is_none() {
+        let rounds = if ctx.thorough() { 120 } else { 25 };
+        let mut worst = 0usize;
+        for round in 0..rounds {
+            let cap = 1 + (round % 3) as usize;
+            let cache = Arc::new(ObjectCache::new(cap));
+            let stop = Arc::new(std::sync::atomic::AtomicBool::new(false));
+            let bad_value = Arc::new(std::sync::atomic::AtomicU64::new(0));
+            let mut hs = vec![];
+            for t in 0..6u64 {
+                let c = cache.clone();
+                let st = stop.clone();
+                let bv = bad_value.clone();
+                hs.push(std::thread::spawn(move || {
+                    let mut r = Rng::new(ctx_seed_mix(round as u64, t));
+                    while !st.load(std::sync::atomic::Ordering::Relaxed) {
+                        let k = 1 + r.below(5);
+                        if t == 0 || r.chance(1, 4) {
+                            // values encode their key: v = k*1000 + x
+                            c.put(ObjectId::new(k as u32, 0), Arc::new(PdfObject::Integer((k * 1000 + r.below(1000)) as i64)));
+                        } else if let Some(v) = c.get(&ObjectId::new(k as u32, 0)) {
+                            if let PdfObject::Integer(i) = &*v {
+                                if (*i as u64) / 1000 != k {
+                                    bv.store(k, std::sync::atomic::Ordering::Relaxed);
+                                }
+                            }
+                        }
+                    }
+                }));
+            }
+            std::thread::sleep(std::time::Duration::from_millis(if ctx.thorough() { 40 } else { 25 }));
+            stop.store(true, std::sync::atomic::Ordering::Relaxed);
+            for h in hs {
+                let _ = h.join();
+            }
+            let size = cache.stats().size;
+            worst = worst.max(size.saturating_sub(cap));
+            if size > cap {
+                out.impl_failures.push(json!({"what": format!("concurrent use: cache of capacity {cap} holds {size} entries after 6 threads ran"), "case": {"stress_round": round, "cap": cap}}));
+                break;
+            }
+            if bad_value.load(std::sync::atomic::Ordering::Relaxed) != 0 {
+                out.impl_failures.push(json!({"what": "concurrent use: a lookup returned a value stored for another key", "case": {"stress_round": round, "cap": cap}}));
+                break;
+            }
+            out.count("stress_round");
+        }
+        out.extra.insert("stress_rounds".into(), json!(rounds));
+        out.extra.insert("stress_worst_excess".into(), json!(worst));
+    }
     out.finish("conc");
+}
+
+fn ctx_seed_mix(a: u64, b: u64) -> u64 {
+    a.wrapping_mul(0x9E37_79B9_7F4A_7C15) ^ b.wrapping_mul(0xD1B5_4A32_D192_ED03) ^ 0xC29
 }
